@@ -1,6 +1,7 @@
 package main
 
 import (
+	"bufio"
 	"bytes"
 	"errors"
 	"fmt"
@@ -338,6 +339,29 @@ func opX3(level, tag, vec, mode, tmpl string) string {
 		lib = resTag(ex.ExportWith(strings.NewReader(tmpl)))
 	case mode == "chunked":
 		lib = resTag(ex.ExportWith(&chunkReader{data: []byte(tmpl)}))
+	case strings.HasPrefix(mode, "pre:"):
+		// a reader the caller has already read a header from: the export must see what is left, whatever fast path the
+		// reader's type offers (io.ReaderAt + Size, io.WriterTo, io.Seeker); the header itself contains template syntax
+		const header = "#lang: en {{ .NoSuchField\n"
+		switch strings.TrimPrefix(mode, "pre:") {
+		case "s":
+			r := strings.NewReader(header + tmpl)
+			io.CopyN(io.Discard, r, int64(len(header)))
+			lib = resTag(ex.ExportWith(r))
+		case "b":
+			r := bytes.NewReader([]byte(header + tmpl))
+			r.Seek(int64(len(header)), io.SeekStart)
+			lib = resTag(ex.ExportWith(r))
+		case "x":
+			r := io.NewSectionReader(strings.NewReader(header+tmpl+"{{ trailer"), int64(len(header)), int64(len(tmpl)))
+			lib = resTag(ex.ExportWith(r))
+		case "u":
+			r := bufio.NewReader(strings.NewReader(header + tmpl))
+			r.Discard(len(header))
+			lib = resTag(ex.ExportWith(r))
+		default:
+			return "bad-mode"
+		}
 	case mode == "held" || mode == "heldreader":
 		// the caller keeps the returned reader and goes on using the library before reading it
 		var r1 io.Reader
